@@ -814,3 +814,144 @@ pub fn gen_c20(rng: &mut Rng, d: &mut Dist, _idx: u64) -> Vec<String> {
     }
     out
 }
+
+pub fn crc32(data: &[u8]) -> u32 {
+    let mut c: u32 = 0xFFFF_FFFF;
+    for b in data {
+        c ^= *b as u32;
+        for _ in 0..8 {
+            c = if c & 1 == 1 { (c >> 1) ^ 0xEDB8_8320 } else { c >> 1 };
+        }
+    }
+    c ^ 0xFFFF_FFFF
+}
+
+/// one Kafka v0 message entry; `crc_delta` is added to the correct checksum (0 = valid)
+pub fn raw_msg(offset: i64, attr: u8, key: Option<&[u8]>, value: Option<&[u8]>, crc_delta: u32) -> Vec<u8> {
+    let mut body = vec![0u8, attr];
+    for f in [key, value] {
+        match f {
+            None => body.extend((-1i32).to_be_bytes()),
+            Some(b) => {
+                body.extend((b.len() as i32).to_be_bytes());
+                body.extend(b);
+            }
+        }
+    }
+    let mut out = Vec::new();
+    out.extend(offset.to_be_bytes());
+    out.extend(((body.len() + 4) as i32).to_be_bytes());
+    out.extend(crc32(&body).wrapping_add(crc_delta).to_be_bytes());
+    out.extend(body);
+    out
+}
+
+fn shuffled<T: Clone>(rng: &mut Rng, xs: &[T]) -> Vec<T> {
+    let mut v = xs.to_vec();
+    rng.shuffle(&mut v);
+    v
+}
+
+/// C16: every option x boundary values x permutations of builder calls x from hosts / from a pre-configured client.
+pub fn gen_c16(rng: &mut Rng, d: &mut Dist, _idx: u64) -> Vec<String> {
+    let cl = Cluster::random(rng, 2, false);
+    let mut out = cl.setup_lines();
+    let t = &cl.topics[0];
+    // a log with a valid message and one with a wrong checksum behind it
+    out.push(format!("APPENDRAW {} 0 0 0 {}", h(&t.name), hex(&raw_msg(0, 0, None, Some(b"good"), 0))));
+    let corrupt = rng.chance(1, 2);
+    if corrupt {
+        out.push(format!("APPENDRAW {} 0 1 1 {}", h(&t.name), hex(&raw_msg(1, 0, None, Some(b"bad-crc"), 1))));
+        bump(d, "log-with-bad-crc");
+    }
+    let from_client = rng.chance(1, 2);
+    bump(d, if from_client { "from-client" } else { "from-hosts" });
+    let durations = ["0:0", "0:100000000", "1:999999999", "2147483:647000000", "2147483:648000000", "4294967296:0", "18446744073709551615:999999999"];
+    if from_client {
+        out.push(format!("OP client_new {}", cl.bootstrap()));
+        let mut sets: Vec<String> = vec![
+            format!("client_id {}", h(*rng.pick(&["pre", "", "x-client"]))),
+            format!("compression {}", rng.below(3)),
+            {
+                let dd = rng.pick(&durations).replace(':', " ");
+                format!("fetch_max_wait {}", dd)
+            },
+            format!("fetch_min_bytes {}", rng.pick(&[1i64, 0, 4096, i32::MAX as i64])),
+            format!("fetch_max_bytes {}", rng.pick(&[100i64, 32768, 1 << 20])),
+            format!("crc {}", rng.below(2)),
+            format!("storage {}", rng.pick(&["none", "zk", "kafka"])),
+            format!("retry_max {}", rng.below(4)),
+            format!("idle_ms {}", rng.pick(&[0u64, 1, 540000, 86_400_000])),
+            "retry_backoff_ms 0".to_string(),
+        ];
+        rng.shuffle(&mut sets);
+        let k = rng.below(sets.len() as u64 + 1) as usize;
+        for sline in sets.iter().take(k) {
+            out.push(format!("OP c set {}", sline));
+        }
+        out.push("OP c get_config".into());
+        out.push("OP c load_metadata_all".into());
+    }
+    let consumer = rng.chance(1, 2);
+    if consumer {
+        bump(d, "consumer-builder");
+        let all: Vec<String> = vec![
+            format!("group={}", h("grp")),
+            format!("fallback={}", rng.pick(&["earliest", "latest"])),
+            format!("maxwait={}", rng.pick(&durations)),
+            format!("minbytes={}", rng.pick(&[1i64, 0, 4096, i32::MAX as i64])),
+            format!("maxbytes={}", rng.pick(&[100i64, 32768, 1 << 20])),
+            format!("retrylimit={}", rng.pick(&[0i64, 1 << 20])),
+            format!("crc={}", rng.below(2)),
+            format!("storage={}", rng.pick(&["none", "zk", "kafka"])),
+            format!("idle={}", rng.pick(&[0u64, 1, 540000])),
+            format!("clientid={}", h(*rng.pick(&["cid", "", "other"]))),
+        ];
+        let mut chosen = shuffled(rng, &all);
+        let k = rng.below(6) as usize;
+        chosen.truncate(k);
+        // sometimes set one option twice: the last call must win
+        if !chosen.is_empty() && rng.chance(1, 4) {
+            let dup = rng.pick(&chosen[..]).clone();
+            let (key, _) = dup.split_once('=').unwrap();
+            let alt = all.iter().find(|o| o.starts_with(&format!("{}=", key))).unwrap().clone();
+            chosen.push(alt);
+            bump(d, "option-set-twice");
+        }
+        chosen.push(format!("topic={}", h(&t.name)));
+        // a group needs a storage to load offsets; keep creation able to succeed
+        let has_group = chosen.iter().any(|o| o.starts_with("group="));
+        if has_group && !chosen.iter().rev().find(|o| o.starts_with("storage=")).map(|o| o != "storage=none").unwrap_or(false) {
+            chosen.push(format!("storage={}", rng.pick(&["zk", "kafka"])));
+        }
+        let chosen = shuffled(rng, &chosen);
+        bump(d, &format!("builder-calls-{}", chosen.len()));
+        let from = if from_client { "client".to_string() } else { format!("hosts={}", cl.bootstrap()) };
+        out.push(format!("OP consumer_create {} {}", from, chosen.join(" ")));
+        out.push("OP k get_config".into());
+        out.push("OP poll".into());
+        out.push("OP poll".into());
+    } else {
+        bump(d, "producer-builder");
+        let all: Vec<String> = vec![
+            format!("compression={}", rng.below(3)),
+            format!("acktimeout={}", rng.pick(&durations)),
+            format!("idle={}", rng.pick(&[0u64, 1, 540000])),
+            format!("acks={}", rng.pick(&[0i64, 1, -1])),
+            format!("clientid={}", h(*rng.pick(&["pid", "", "other"]))),
+            format!("partitioner={}", rng.below(5)),
+        ];
+        let mut chosen = shuffled(rng, &all);
+        let k = rng.below(7) as usize;
+        chosen.truncate(k);
+        bump(d, &format!("builder-calls-{}", chosen.len()));
+        if chosen.iter().any(|o| o.starts_with("partitioner=")) {
+            bump(d, "with-partitioner");
+        }
+        let from = if from_client { "client".to_string() } else { format!("hosts={}", cl.bootstrap()) };
+        out.push(format!("OP producer_create {} {}", from, chosen.join(" ")));
+        out.push("OP p get_config".into());
+        out.push(format!("OP send_all {} 0 6b 76", h(&t.name)));
+    }
+    out
+}
